@@ -125,7 +125,8 @@ theorem surface_matrix_orthogonal (k0 k1 : V3 ℝ) (h : FrameOK k0 k1) :
   exact ⟨frameMatrix_orthogonal _ _ _ hs h.unit0 h.unit1 hs0 hs1, frameMatrix_k _ _ _ h.unit0 hs0⟩
 
 example : FrameOK (⟨0, 0, 1⟩ : V3 ℝ) ⟨0, 0, 1⟩ :=
-  ⟨by unfold dot; num_real; norm_num, by unfold dot; num_real; norm_num, fun _ => Or.inr (by norm_num)⟩
+  ⟨by unfold dot; num_real; norm_num, by unfold dot; num_real; norm_num, fun _ => Or.inr (by norm_num),
+     Or.inl (by unfold vnorm cross; num_real; norm_num)⟩
 
 /-- an uncoated surface whose frames are defined -/
 def UncoatedOK (e : PolEvent ℝ) : Prop := e.jones = none ∧ FrameOK e.k0 e.k1
@@ -201,7 +202,8 @@ theorem field_stays_transverse (evs : List (PolEvent ℝ)) (h : ∀ e ∈ evs, U
 example : ∃ (evs : List (PolEvent ℝ)) (k k' : V3 ℝ), (∀ e ∈ evs, UncoatedOK e) ∧ dot k k = 1 ∧
     (k.y ≠ 0 ∨ k.z ≠ 0) ∧ Chain k evs k' ∧ evs ≠ [] := by
   have hf : FrameOK (⟨0, 0, 1⟩ : V3 ℝ) ⟨0, 0, 1⟩ :=
-    ⟨by unfold dot; num_real; norm_num, by unfold dot; num_real; norm_num, fun _ => Or.inr (by norm_num)⟩
+    ⟨by unfold dot; num_real; norm_num, by unfold dot; num_real; norm_num, fun _ => Or.inr (by norm_num),
+     Or.inl (by unfold vnorm cross; num_real; norm_num)⟩
   refine ⟨[⟨⟨0, 0, 1⟩, ⟨0, 0, 1⟩, none⟩], ⟨0, 0, 1⟩, ⟨0, 0, 1⟩, ?_, ?_, Or.inr (by norm_num), ⟨rfl, rfl⟩, by simp⟩
   · intro e he
     rw [List.mem_singleton] at he
